@@ -216,6 +216,20 @@ CLAIMED = {
             "Trusted: TLC, ASan as out-of-bounds sensor. Documents with duplicate keys, out-of-range numbers or \\u escapes "
             "above U+00FF have no reference value (totality only).",
             "DESIGN.md 3.5"),
+    "C06": ("TLA+ reference decoders for Netpbm P5/P6/P7 and Windows BMP and a structural PNG validity predicate using the "
+            "CRC-32 of spec/lib/Hash (spec/ImageCodec): TLC checks in small scope that the reference decoders invert "
+            "reference encoders written from the format definitions and reject every proper prefix; every file saved or "
+            "loaded by the real Image class is recorded byte for byte and validated against the reference decoders",
+            "All sizes 1..5 x 1..5 (thorough 1..8 x 1..8) plus sizes 9..64 incl. every residue of width mod 4, alpha on/off, "
+            "channel widths 8/16/32/64, three pixel styles: save as PPM/P7, BMP, PNG through both the string and the FILE* "
+            "entry points, decode with the reference decoder, load back and compare; 70 foreign variants per size (P5, P6 "
+            "with irregular whitespace, P7 with the four tuple types and permuted header lines at 8/16/32/64-bit samples, "
+            "BMP header sizes 40/52/56/108/124, bottom-up / top-down, 24- and 32-bit BI_RGB with a gap before the pixel "
+            "data, all 24 byte-mask permutations of BI_BITFIELDS); every prefix of every file up to 400 bytes (sampled "
+            "beyond) loaded from an exact-size heap buffer under ASan + LSan.",
+            "Trusted: TLC, zlib's inflate (used only to expose the scanlines of the PNG that are then judged by the spec), "
+            "ASan/LSan as memory sensors. Dimensions beyond 64 are not driven.",
+            "DESIGN.md 3.6"),
     "C07": ("TLA+ per-pixel model of the canvas (spec/Canvas): one generic clipped-blit operator parameterised by the "
             "colour rule, fill, dashed lines, the relational line law, mirror / invert / alpha identities, crop for clipping "
             "invariance: TLC checks clipping invariance and involutions of the model in small scope and validates recorded "
